@@ -66,11 +66,9 @@ def check_values(pd, vals, what, out, exact_only=False):
         return
     prev = None
     for g, t in zip(got, vals):
-        exact = t.kind in ("qstr", "num", "bare", "word", "hex", "kw", "regex")
-        if exact:
-            if g != (t.line, t.col):
-                out.append((what + ":value_pos", f"{what}: value {t.text!r:.30} is at {t.line}:{t.col} but recorded at {g[0]}:{g[1]}"))
-        elif not within(g, t):
+        # the statement promises that value positions follow in source order: each recorded position must lie
+        # inside the span of its own value token (so it is after the keyword and before the next value)
+        if not within(g, t):
             out.append((what + ":value_span", f"{what}: value {t.text!r:.30} spans from {t.line}:{t.col} but recorded at {g[0]}:{g[1]}"))
         if prev is not None and g < prev:
             out.append((what + ":value_order", f"{what}: value positions not in source order: {got}"))
